@@ -74,6 +74,9 @@ Definition dec_s (fuel : nat) (v : val) : option stmt :=
   | VL [VZ 3; fm; pid; o; e] =>
     match dec_fam fm, get_n pid, dec_e fuel o, dec_e fuel e with
     | Some fm', Some p, Some o', Some e' => Some (SSetObj fm' p o' e') | _, _, _, _ => None end
+  | VL [VZ 4; VZ k; i; e] =>
+    match (if k =? 0 then Some TSpecial else if k =? 2 then Some TSystem else None), get_n i, dec_e fuel e with
+    | Some k', Some i', Some e' => Some (SSetThe k' i' e') | _, _, _ => None end
   | _ => None
   end.
 
@@ -157,6 +160,7 @@ Definition text_okb_s (en : env) (props : list string) (s : stmt) : bool :=
   | SCallS f args => lingo_plain_call (nm en f) && negb (String.eqb (nm en f) "go") && forallb (text_okb en) args
   | SLCallS f args => lingo_plain_call (nth f (e_lfuncs en) "") && negb (String.eqb (nth f (e_lfuncs en) "") "go") && forallb (text_okb en) args
   | SSetObj f _ o v => assignable f && text_okb en o && text_okb en v
+  | SSetThe k i v => text_okb en (EThe k i) && negb (starts_with "field(" (render en (pp_tok en (EThe k i)))) && text_okb en v
   end.
 Definition js_okb_s (en : env) (props : list string) (s : stmt) : bool :=
   match s with
@@ -164,6 +168,7 @@ Definition js_okb_s (en : env) (props : list string) (s : stmt) : bool :=
   | SCallS f args => plain_call_name (nm en f) && forallb (js_okb en) args
   | SLCallS f args => plain_call_name (nth f (e_lfuncs en) "") && forallb (js_okb en) args
   | SSetObj f _ o v => assignable f && js_okb en o && js_okb en v
+  | SSetThe k i v => js_okb en (EThe k i) && js_okb en v
   end.
 Definition is_qnil (q : prog2) : bool := match q with QNil => true | _ => false end.
 Fixpoint text_okb_q (en : env) (props : list string) (q : prog2) : bool :=
